@@ -1147,7 +1147,7 @@ def bin_walk_overflow(ctx, R, k, c):
                     bc = call(bct.betweenness_bin, A.astype(float), _t=15.0)
             else:
                 with np.errstate(over='raise', invalid='ignore'):
-                    bc = call(bct.betweenness_bin, A.astype(float), _t=60.0)
+                    bc = call(bct.betweenness_bin, A.astype(float), _t=4.0)
         except Timeout:
             ctx.fail(BIN_OVERFLOW_KEY, 'does not return within the limit on a connected undirected 0/1 network of %d nodes' % n, case)
             return
